@@ -32,6 +32,10 @@ QUERIES += [
  Query('lemma_unique', 'c', None, 'h_lemma_unique', cfile='contracts/lemma_scriptnum.c', unwind=12, timeout=600),
  Query('lemma_range', 'c', None, 'h_lemma_range', cfile='contracts/lemma_scriptnum.c', unwind=12, timeout=300),
 ]
+# integer literals (the debugger's decimal conversion): the classification contracts of C07 - plain tokens of <= 5 characters for every
+# spelling, and the concrete boundary literals of 10..20 characters - are re-run here
+from props import C07 as _C07
+QUERIES += [_C07.CLASSIFY, _C07.LITERALS]
 META = {
  'level': 'proof',
  'trusted_base': TRUSTED,
